@@ -70,7 +70,11 @@ def yield_points():
     """Named scheduling points (source patterns) for interleaving stress."""
     from pynetdicom.association import Association
     from pynetdicom.acse import ACSE
+    from pynetdicom.transport import RequestHandler
     return [
+        # the server thread between creating the acceptor association, announcing the connection and starting the association
+        (RequestHandler.handle, "evt.trigger(assoc, evt.EVT_CONN_OPEN", 0),
+        (RequestHandler.handle, "assoc.start()", 0),
         (Association._run_reactor, "self._reactor_checkpoint.wait()", 0),
         (Association._run_reactor, "if self.is_established and self.acse.is_release_requested()", 0),
         (Association._run_reactor, "if self.acse.is_aborted()", 0),
